@@ -117,6 +117,15 @@ def r1_pairing(repo: Repo, rep):
     if fi is None:
         raise AnalysisError("Points.from_coordinates vanished")
     rep.saw(fi)
+    # every coordinate is converted on its own: no dtype / device borrowed from another entry (torch.cat promotes to a common type by itself)
+    casts = []
+    for c in ast.walk(fi.node):
+        if isinstance(c, ast.Call) and ((attr_chain(c.func) or "") in ("torch.as_tensor", "torch.tensor") or (isinstance(c.func, ast.Attribute) and c.func.attr in ("to", "type", "type_as"))):
+            dt = [k for k in c.keywords if k.arg == "dtype"] + ([c] if isinstance(c.func, ast.Attribute) and c.func.attr in ("type", "type_as") else [])
+            pos = [a for a in c.args[1:] if "dtype" in dump(a)] + ([a for a in c.args if "dtype" in dump(a)] if isinstance(c.func, ast.Attribute) and c.func.attr == "to" else [])
+            if dt or pos:
+                casts.append(dump(c)[:70])
+    rep.check(R, not casts, fi.site(), fi.fq, "coordinates keep their own dtype when they are collected", str(casts[:2]), f"dtype imposed: {casts[:1]}")
     cp = fi.params[1]
     for p in _ret_paths(fi):
         c = _points_call(p.ret)
